@@ -17,6 +17,7 @@ static size_t vx_cur;                     /* member currently processed */
 #define VX_W (vx_cur == vx_k)
 static void vx_erase(void) { if (VX_W) { if (vx_emplaces) vx_order_bad = true; vx_erases++; } }
 static void vx_emplace_merged(bool existing) { if (VX_W) { vx_emplaces++; vx_recursions++; vx_rec_on_existing = existing; } }
+static void vx_emplace_asis(void) { if (VX_W) { vx_emplaces++; } }   /* the patch value inserted without being merged */
 static void vx_emplace_null(void) { if (VX_W) { vx_emplaces++; vx_emplaced_null = true; } }
 static void vx_emplace_copy(void) { if (VX_W) { vx_emplaces++; vx_emplaced_copy = true; } }
 static void vx_emplace_diff(void) { if (VX_W) { vx_emplaces++; vx_recursions++; } }
